@@ -50,6 +50,12 @@ TEXT["C06"] = (TEXT["C06"][0] + " Link.tla adds the wire (bit flips, lost clock 
 TEXT["C01"] = (TEXT["C01"][0] + " Plus replay of the TLC-exported table over all 2^24 (thorough 2^32) byte streams and long periodic streams, the Default-constructed decoder, and spec-mode trace validation through Keyboard (bytes interleaved with the events they produce).", TEXT["C01"][1] + " + R + V")
 TEXT["C02"] = (TEXT["C02"][0] + " Plus replay of the TLC-exported table over all 2^24 (thorough 2^32) byte streams, the Default-constructed decoder and spec-mode trace validation.", TEXT["C02"][1] + " + R + V")
 
+LINK = " LinkScan.tla (keyboard with held keys -> faulty wire -> frame stage -> Set 2 stage -> host's held set) generates seeded -simulate behaviours whose every delivered bit and timeout-clear() is replayed into a real Keyboard and into the real Ps2Decoder + ScancodeSet2 used separately (pkv replay-link)."
+TEXT["C01"] = (TEXT["C01"][0] + LINK, TEXT["C01"][1])
+TEXT["C06"] = (TEXT["C06"][0] + LINK, TEXT["C06"][1])
+TEXT["C18"] = (TEXT["C18"][0] + LINK, TEXT["C18"][1] + " + R (spec behaviours replayed bit by bit)")
+TEXT["C07"] = (TEXT["C07"][0] + " LinkScan.tla checks resynchronisation from the wire: after any line fault one untouched key sequence brings the scancode context back to Start, and each fault costs at most three keys of host/keyboard disagreement (TLC, up to 1.17M states), with a hazard configuration in which TLC must find the phantom key.", TEXT["C07"][1])
+
 def main():
     checks = []
     for pid in sorted(pkverif.PROPS):
